@@ -39,7 +39,15 @@ RenderTags(ev) ==
     IF ev.outcome # "Ok" THEN {"render-outcome:" \o ev.outcome}
     ELSE IF ev.out = Denote(ast, ev.env) THEN {} ELSE {"render:" \o ev.flav \o ":" \o ev.locale \o ":" \o a.names[ev.j]}
 
+\* many-locale project (MC_ManyLoc): key m differs in every locale, key h is null in the even locales (default = locale 1)
+RenderManyTags(ev) ==
+    LET a == Cases[ev.case].abs
+        shown == IF ev.key = "m" \/ ev.li % 2 = 1 THEN ev.li ELSE 1 IN
+    IF ev.outcome # "Ok" THEN {"render-outcome:" \o ev.outcome}
+    ELSE IF ev.out = Denote(a.values[shown], ev.env) THEN {} ELSE {"render-many:" \o ev.flav \o ":" \o a.locs[ev.li] \o ":" \o ev.key}
+
 Tags(ev) == IF ev.ev = "Value" THEN ValueTags(ev)
+            ELSE IF ev.ev = "RenderMany" THEN RenderManyTags(ev)
             ELSE IF ev.ev = "Render" THEN RenderTags(ev)
             ELSE IF ev.ev = "Load" THEN LoadTags(ev)
             ELSE IF ev.ev = "Crash" THEN {"crash:" \o ev.outcome}
